@@ -582,10 +582,13 @@ class Loaded:
     pass
 
 
-def load(qual, loops=None, shims=None, extra_globals=None, int_mode="math"):
-    """qual = 'package.module:func' or 'package.module:Class.method'.
-    loops: {ordinal: dict(inv=callable(NS)->SBool|[SBool], fresh={name: fn})}."""
-    from . import npshim
+_COMPILED = {}
+
+
+def _compile(qual, cut_ordinals):
+    key = (qual, tuple(sorted(cut_ordinals)))
+    if key in _COMPILED:
+        return _COMPILED[key]
     modname, path = qual.split(":")
     mod = importlib.import_module(modname)
     filename = mod.__file__
@@ -596,24 +599,40 @@ def load(qual, loops=None, shims=None, extra_globals=None, int_mode="math"):
     fn = copy.deepcopy(fn)
     fn.decorator_list = []
     all_loops = loops_preorder(fn)
-    loops = loops or {}
-    for k in loops:
+    for k in cut_ordinals:
         if k >= len(all_loops):
             raise LookupError("%s: contract names loop %d but the function has %d loops" % (qual, k, len(all_loops)))
-    cutter = Cutter(fn, loops.keys())
+    headers = [ast.unparse(n.iter) if isinstance(n, ast.For) else ast.unparse(n.test) for n in all_loops]
+    lines = (fn.lineno, fn.end_lineno)
+    cutter = Cutter(fn, cut_ordinals)
     new_fn = cutter.visit(fn)
     module = ast.Module(body=[new_fn], type_ignores=[])
     ast.fix_missing_locations(module)
-    L = Loaded()
-    L.qual, L.short = qual, path
-    L.filename = filename
-    L.loops = loops
-    L.info = cutter.info
-    L.n_loops = len(all_loops)
-    L.loop_headers = [ast.unparse(n.iter) if isinstance(n, ast.For) else ast.unparse(n.test) for n in all_loops]
-    L.rewritten_source = ast.unparse(module)
-    L.original_lines = (fn.lineno, fn.end_lineno)
     code = compile(module, filename, "exec")
+    out = dict(mod=mod, filename=filename, code=code, name=fn.name, info=cutter.info, n_loops=len(all_loops),
+               headers=headers, source=ast.unparse(module), lines=lines, path=path)
+    _COMPILED[key] = out
+    return out
+
+
+def load(qual, loops=None, shims=None, extra_globals=None, int_mode="math"):
+    """qual = 'package.module:func' or 'package.module:Class.method'.
+    loops: {ordinal: dict(inv=callable(NS)->SBool|[SBool], fresh={name: fn})}.
+    The source is parsed, cut and compiled once per process (it cannot change during a run); the namespace,
+    shims and run-time object are rebuilt for every path."""
+    from . import npshim
+    loops = loops or {}
+    c = _compile(qual, loops.keys())
+    mod = c["mod"]
+    L = Loaded()
+    L.qual, L.short = qual, c["path"]
+    L.filename = c["filename"]
+    L.loops = loops
+    L.info = c["info"]
+    L.n_loops = c["n_loops"]
+    L.loop_headers = c["headers"]
+    L.rewritten_source = c["source"]
+    L.original_lines = c["lines"]
     ns = dict(mod.__dict__)
     ns.update(BUILTIN_SHIMS)
     np_shim = npshim.NumpyShim(int_mode=int_mode)
@@ -629,6 +648,6 @@ def load(qual, loops=None, shims=None, extra_globals=None, int_mode="math"):
     rt = Runtime(L)
     ns["__pv"] = rt
     L.runtime = rt
-    exec(code, ns)
-    L.fn = ns[fn.name]
+    exec(c["code"], ns)
+    L.fn = ns[c["name"]]
     return L
